@@ -90,7 +90,7 @@ pub proof fn lemma_tua_fn0<AB: ArrivalBound + ?Sized>(c: int, ab: &AB)
 
 /// the observation of the step streams covers every offset the search can reach (and the eager reading of the shift does not overflow)
 pub open spec fn pre_steps_ot<B: ArrivalSteps + ?Sized>(ot: &Task<B>, dl: int, max: int, n: int) -> bool {
-    ot.arrivals.steps_ok(n) && ot.arrivals.steps_hz(n) >= max + dl && ot.arrivals.steps_hz(n) + ot.deadline.v() <= u64::MAX
+    ot.arrivals.steps_ok(n) && ot.arrivals.steps_hz(n) >= max + dl && ot.arrivals.steps_ub(n) + ot.deadline.v() <= u64::MAX
 }
 pub open spec fn pre_steps<A: ArrivalSteps + ?Sized, B: ArrivalSteps + ?Sized>(tua: &Task<A>, ot: Seq<Task<B>>, limit: int, n: int) -> bool {
     &&& tua.arrivals.steps_ok(n) && tua.arrivals.steps_hz(n) >= limit
@@ -327,7 +327,7 @@ where
     let search_space = /*@R21: other_tasks
         .iter()
         .zip(rbfs.iter())
-        .map( @*/VfStream::kmerge_map2(other_tasks, rbfs.as_slice(), /*@.*/|/*@R21: (ot, rbf) @*/ot: &Task<AB2>, rbf: &demand::RBF<&AB2, wcet::Scalar>/*@.*/| /*+*/-> (r: VfStream<Offset>)
+        .map( @*/VfStream::<Offset>::kmerge_map2(other_tasks, rbfs.as_slice(), /*@.*/|/*@R21: (ot, rbf) @*/ot: &Task<AB2>, rbf: &demand::RBF<&AB2, wcet::Scalar>/*@.*/| /*+*/-> (r: VfStream<Offset>)
             requires rbf.wf(), rbf.wcet == ot.wcet, rbf.arrival_bound == ot.arrivals, ot.wcet.wcet.v() >= 1, pre_steps_ot(ot, tua.deadline.v(), max_offset.v(), vf_n as int)
             ensures forall |a: int| #[trigger] off_has(r.0@, a) <==> shifted_in(rbf_fn(rbf), ot.deadline.v(), tua.deadline.v(), max_offset.v(), a)
         /*-*/{ /*@probe*/
@@ -345,11 +345,11 @@ where
                 }/*+*/, Ghost(sh(ot.deadline.v(), tua.deadline.v()))/*-*/)
                 .take_while(|A/*+*/: &Offset/*-*/| /*+*/-> (r: bool) ensures r == (A.v() < max_offset.v()) { /*@probe*/ /*-*/*A < max_offset/*+*/ }, Ghost(|A: Offset| A.v() < max_offset.v())/*-*/)/*+*/;
             proof {
-                let fo = rbf_fn(rbf); let hzo = rbf.rsteps_hz(vf_n as int);
+                let fo = rbf_fn(rbf); let hzo = rbf.rsteps_hz(vf_n as int); let ubo = rbf.rsteps_ub(vf_n as int);
                 let (dlo, dl, mxo) = (ot.deadline.v(), tua.deadline.v(), max_offset.v());
-                assert(exists |o: Seq<Offset>| #[trigger] offsets_exact(o, fo, hzo) && tw_of(vf_r.0@, o.map_values(sh(dlo, dl)), mxo));
-                let o = choose |o: Seq<Offset>| #[trigger] offsets_exact(o, fo, hzo) && tw_of(vf_r.0@, o.map_values(sh(dlo, dl)), mxo);
-                lemma_shifted_tw_set(o, fo, hzo, dlo, dl, mxo, vf_r.0@);
+                assert(exists |o: Seq<Offset>| #[trigger] offsets_exact(o, fo, hzo) && off_lt(o, ubo) && tw_of(vf_r.0@, o.map_values(sh(dlo, dl)), mxo));
+                let o = choose |o: Seq<Offset>| #[trigger] offsets_exact(o, fo, hzo) && off_lt(o, ubo) && tw_of(vf_r.0@, o.map_values(sh(dlo, dl)), mxo);
+                lemma_shifted_tw_set(o, fo, hzo, ubo, dlo, dl, mxo, vf_r.0@);
             }
             vf_r/*-*/
         }/*@R21: )
